@@ -24,6 +24,9 @@ import (
 	"github.com/nuts-foundation/nuts-node/audit"
 	"github.com/nuts-foundation/nuts-node/vcr/signature"
 	"github.com/nuts-foundation/nuts-node/vcr/signature/proof"
+	"github.com/nuts-foundation/nuts-node/vdr/resolver"
+	"go.uber.org/mock/gomock"
+	"crypto"
 )
 
 // independent statement of "encoding/json would conflate two members of one object", at any depth
@@ -107,7 +110,7 @@ func vC17Reads(doc interface{}) vC17Probe {
 }
 
 func vC17FoldLeg(t *testing.T, ops, impl *bufio.Writer, only map[string]bool, seed int64, tier string, svld *signatureVerifier, newParty func(string) string,
-	signSuite signature.JSONWebSignature2020, now time.Time) int {
+	signSuite signature.JSONWebSignature2020, now time.Time, ctrl *gomock.Controller) int {
 	n := 0
 	emit := func(op map[string]interface{}, res string) {
 		b, _ := json.Marshal(op)
@@ -116,6 +119,38 @@ func vC17FoldLeg(t *testing.T, ops, impl *bufio.Writer, only map[string]bool, se
 		impl.WriteString(res + "\n")
 		n++
 	}
+	// ---------------- resolvekid: the REAL resolveSigningKey with a resolver that records the kid it is asked for
+	{
+		asked := ""
+		rec := resolver.NewMockKeyResolver(ctrl)
+		rec.EXPECT().ResolveKeyByID(gomock.Any(), gomock.Any(), resolver.NutsSigningKeyType).DoAndReturn(
+			func(kid string, _ *resolver.ResolveMetadata, _ resolver.RelationType) (crypto.PublicKey, error) {
+				asked = kid
+				return nil, resolver.ErrKeyNotFound
+			}).AnyTimes()
+		svk := signatureVerifier{keyResolver: rec}
+		issuers := []string{"did:jwk:eyJrdHkiOiJFQyJ9", "did:web:example.com:iam:alice", "did:nuts:alice", "did:jwk:", "did:jwk", "DID:JWK:x", "did:jwk:a#0", "did:jwkx:a", "", "x#y"}
+		i := 0
+		for _, iss := range issuers {
+			for _, kid := range []string{"", iss, iss + "#0", iss + "#key-1", iss + "2", iss + "#", "#0", "did:jwk:other", "did:jwk:other#0", "did:jwk:" + iss, "did:web:mallory#did:jwk:", iss + "#a#b"} {
+				name := fmt.Sprintf("resolvekid-%d", i)
+				i++
+				if len(only) > 0 && !only["|"+name] {
+					continue
+				}
+				asked = "<not asked>"
+				res := "panic"
+				func() {
+					defer func() { _ = recover() }()
+					_, _ = svk.resolveSigningKey(kid, iss, &resolver.ResolveMetadata{})
+					res = asked
+				}()
+				passes := kid == "" || strings.Split(kid, "#")[0] == iss
+				emit(map[string]interface{}{"op": "resolvekid", "name": name, "kid": kid, "issuer": iss, "passes_issuer_test": passes}, res)
+			}
+		}
+	}
+
 	// ---------------- ambig
 	r := rand.New(rand.NewSource(seed*31 + 7))
 	trees := 300
